@@ -1073,8 +1073,10 @@ def _interp_actions(fr):
                 _h.append(_heard(key, v))
             un = app.request.on('env_changed', cb)
             app.request.emit('verif.nobody.listens')
+            fr['n_listen'] = fr.get('n_listen', 0) + 1
+            note = '%s.%d' % (fr['tok'], fr['n_listen'])       # (a new value every time: an unchanged value is no change)
             if not fr.get('readonly'):
-                app.request['x.note'] = fr['tok']
+                app.request['x.note'] = note
             if act[1:] == ['off']:
                 app.request.off('env_changed', cb)
             else:
@@ -1082,7 +1084,7 @@ def _interp_actions(fr):
             fr['log'].append(dict(kind='form', tok=fr['tok'], where='listen',
                                   got=dict(own=[h for h in heard if not _foreign(h, fr['tok'])],
                                            foreign=[h for h in heard if _foreign(h, fr['tok'])]),
-                                  want=dict(own=[] if fr.get('readonly') else [['x.note', fr['tok'], fr['tok']]], foreign=[])))
+                                  want=dict(own=[] if fr.get('readonly') else [['x.note', note, fr['tok']]], foreign=[])))
         elif kind == 'sess_mutate':
             # read the signed cookie, change the decoded value IN PLACE, report it: the decoded object belongs to
             # this request (every request decodes its own copy of the cookie)
